@@ -35,7 +35,11 @@ MANIFEST = {
             "objects are not stored; a model is never loaded partially (missing keys raise, for every module and file), "
             "DataParallel / DistributedDataParallel wrappers are transparent because the constructor strips them from `model` "
             "and from every *model key (witness: stripping only `model` breaks); save_to_disk=False never writes, and two "
-            "concurrent writers of a well-formed save can leave a corrupt 'latest' (witness) — why only rank 0 writes. "
+            "concurrent writers of a well-formed save can leave a corrupt 'latest' (witness) — why only rank 0 writes; a save "
+            "routine that also deletes older checkpoints is crash safe at every crash point (between and after the deletions "
+            "included) for every table accepted by wfSaveX (well-formed core, deletions only after the pointer moved) and "
+            "every set of deleted labels not containing the new one — deleting before the pointer moved, or deleting the "
+            "label just written, are proved violation witnesses. "
             "(trainer machine, arbitrary model / loss / optimiser / schedule) a clean stop after iteration t and resume at "
             "label+1, and a SIGINT or RuntimeError inside any iteration i >= 5 (exit path saves the pre-iteration state under "
             "i-1), continue on exactly the uninterrupted trajectory (parameters, optimiser state, last_epoch hence all later "
@@ -60,17 +64,23 @@ MANIFEST = {
             "(wfSave by decide — a harmless reordering keeps the proof), translated resume / kill-path / checkpoint / "
             "validation / log interval arithmetic, scheduler formulas, 'latest' aliases, the initialization chain, the tail "
             "of validation_loop, structural API facts (constructor unwraps, save guard, main-process-only writing, no "
-            "directory listing in load, missing keys raise, only_models) and the trainer's milestone expression; strace of a "
+            "directory listing in load, missing keys raise, only_models, resume only under `if resume`), the table of every "
+            "object the real engine hands to its Checkpointer with the verdict of save's HasStateDict filter (introspection; "
+            "nothing may be dropped — the engine's own GradScaler included) and the trainer's milestone expression; strace of a "
             "real save, real load on every materialised crash state (incl. stale *.tmp) and for every argument form, real "
             "save/load of object bundles and of modules with named parameters (wrappers, missing / unexpected keys, kwargs, "
             "save_to_disk), real schedulers checkpointed and resumed at every point of 1..60-iteration schedules (thorough) and "
             "into objects built with another learning rate, and real Engine.train histories (validation data, "
             "initialization, start_with_validation, resume=False, finished runs, real SIGINTs, RuntimeErrors, crashes inside "
-            "saves) compared exactly with the model, events included.",
+            "saves; a third of them with the engine's own enabled GradScaler, mixed_precision=True) compared exactly with the "
+            "model, events included; every constructor option of the Checkpointer found by introspection is traced with "
+            "non-default values and its crash states are enumerated on the real code.",
     "note": "Trusted: Lean kernel, AST translator, strace canonicalisation, 'os.replace is atomic / open(w) truncates / write "
             "appends / a torch file is loadable iff complete' (the last one is probed on every run with truncated real "
             "files), no fsync / power-loss modelling below rename, torch.save/load round trip as decode(encode s) = s, "
-            "a real enabled GradScaler needs CUDA: the harness uses a counting scaler subclass (state evolves with update()); "
+            "a real enabled GradScaler needs CUDA: two thirds of the histories use a counting scaler subclass (state evolves "
+            "with update()), one third the engine's own GradScaler with the CUDA-availability probe patched so that it is "
+            "enabled on CPU (scale / growth tracker mapped to the update count; no overflow in the toy: back-off not exercised); "
             "training-mode dependence of a model is represented by a deterministic stand-in (output doubled in training mode) "
             "instead of dropout / batch norm; validation runs the real evaluate / reconstruct_volumes on a two-slice toy "
             "volume with gc.collect() stubbed. "
@@ -95,7 +105,10 @@ TRUSTED = [
     "strace -f -e trace=openat,write,rename*,unlink*,close,lseek,ftruncate,pwrite64 canonicalised by basename",
     "torch.save / torch.load: decode(encode s) = s; a checkpoint file is loadable iff all its bytes were written (probed "
     "with truncated real files on every run)",
-    "optimizer.step arbitrary; GradScaler disabled on CPU (state_dict {}): counting scaler subclass in the harness",
+    "optimizer.step arbitrary; GradScaler: counting scaler subclass, or the engine's own scaler enabled on CPU by patching "
+    "torch.cuda.amp.common.amp_definitely_not_available (scale / growth tracker ↔ number of update() calls)",
+    "introspection of a real engine (training_loop replaced by a no-op) for the table of checkpointed objects; "
+    "inspect.signature(Checkpointer.__init__) for constructor options",
     "the toy engine subclasses (props/c16.py ToyEngine, props/c15_engine.py EngineX), the SIGINT self-delivery "
     "(os.kill(getpid(), SIGINT) inside _do_iteration), the simulated RuntimeError, event recording by overriding "
     "validation_loop / write_to_logs and wrapping Checkpointer.save, gc.collect() stubbed during validation, "
@@ -116,7 +129,8 @@ RULE = ("crash states: every prefix of the traced operation list of a real save,
         "without validation data, mode-dependent additional model, per process resume / initialization / "
         "start_with_validation flags, RuntimeError exits, a process resuming a finished run, a restart with resume=False; "
         "API: modules with 1..3 named parameters, DataParallel on any of the four modules, missing / extra keys, kwargs, "
-        "save_to_disk, all argument forms of load; non-trivial = a crash point strictly inside save, a history with at "
+        "save_to_disk, all argument forms of load; every unknown constructor option of the Checkpointer with 1-2 non-default "
+        "values: traced saves, every crash prefix of the first three scenarios; non-trivial = a crash point strictly inside save, a history with at "
         "least one interruption at an iteration >= 5, a load by label / 'latest'; distinct = distinct protocol line; the "
         "write_to_logs call of log_first_training_example_and_model (iteration 0) is not an event")
 PENDING_FINDINGS: list[str] = []
